@@ -24,7 +24,7 @@ run_demo() { # returns 0 if demo passes
     *.py) # Python / CLI demonstrations: (re)build the extension and the CLI in the worktree first, stage the package
           (cargo build --offline -p sudachipy -p sudachi-cli > $DST/demo-build-$1.log 2>&1) || return 98
           rm -rf target/pydemo && mkdir -p target/pydemo && cp -r python/py_src/sudachipy target/pydemo/ && cp target/debug/libsudachipy.so target/pydemo/sudachipy/sudachipy.so
-          SUDACHI_WT=$WT PYTHONPATH=$WT/target/pydemo python3-vt $SRC/$DEMO > $DST/demo-$1.log 2>&1; return $?;;
+          SUDACHI_WT=$WT PYTHONPATH=$WT/target/pydemo python3-vt $SRC/$DEMO $WT/target/pydemo $WT/python/tests/resources > $DST/demo-$1.log 2>&1; return $?;;
     *) return 99;;
   esac
 }
